@@ -13,8 +13,9 @@ warnings.simplefilter("ignore")
 logging.disable(logging.CRITICAL)
 
 import numpy as np  # noqa: E402
+import zlib  # noqa: E402
 from traits.api import (  # noqa: E402
-    Any, Bool, Bytes, CBool, CBytes, CComplex, CFloat, CInt, CStr, Callable, Complex, Either, Enum, Float,
+    Any, Array, Bool, Bytes, CBool, CBytes, CComplex, CFloat, CInt, CStr, Callable, Complex, Either, Enum, Float,
     HasTraits, Instance, Int, Map, Module, PrefixList, PrefixMap, Range, Str, String, This, TraitError, Tuple,
     Type, Union)
 
@@ -118,6 +119,35 @@ NPK = {14: np.int32, 15: np.int64, 16: np.uint8, 17: np.float32, 18: np.float64}
 OTHERS = {-1: lambda: {}, -2: lambda: {1: 2}, -3: lambda: {1}, 1: lambda: object(), 2: lambda: frozenset([1])}
 MODULES = {0: math, 1: re}
 CALLABLES = {0: f0, 1: len}
+DTYPES = {30: np.dtype("float64"), 31: np.dtype("float32"), 32: np.dtype("int64"), 33: np.dtype("int32"),
+          34: np.dtype("int8"), 35: np.dtype("bool"), 36: np.dtype("<U1"), 37: np.dtype("complex128")}
+CASTING = {0: "no", 1: "equiv", 2: "safe", 3: "same_kind", 4: "unsafe"}
+
+
+def make_array(dt, shape, cid):
+    """the array denoted by PArray dt shape cid (cid < 1000: generated content)"""
+    size = 1
+    for n in shape:
+        size *= n
+    if dt == 36:
+        flat = np.array([chr(97 + (i + cid) % 26) for i in range(size)], dtype="<U1")
+    elif dt == 35:
+        flat = np.array([(i + cid) % 2 == 0 for i in range(size)], dtype=bool)
+    else:
+        flat = (np.arange(size) + cid).astype(DTYPES[dt])
+    return flat.reshape(shape)
+
+
+def enc_array(a):
+    dt = next((k for k, d in DTYPES.items() if a.dtype == d), 39)
+    shape = [int(n) for n in a.shape]
+    if dt == 39:
+        return ["PArray", 39, shape, 999]
+    for cid in range(4):
+        g = make_array(dt, shape, cid)
+        if g.shape == a.shape and g.tobytes() == a.tobytes():
+            return ["PArray", dt, shape, cid]
+    return ["PArray", dt, shape, 1000 + zlib.crc32(np.ascontiguousarray(a).tobytes()) % 100000]
 
 
 def sub_pairs():
@@ -241,6 +271,8 @@ class Pool:
             return MODULES[j[1]]
         if k == "POther":
             return OTHERS[j[1]]()
+        if k == "PArray":
+            return make_array(j[1], j[2], j[3])
         raise ValueError(j)
 
     # ---- Python value -> JSON (exact type tag + atom) ----
@@ -277,6 +309,8 @@ class Pool:
                 return ["PNpInt", k, int(v)] if k <= 16 else ["PNpFloat", k, fl_enc(v)]
         if t is np.bool_:
             return ["PNpBool", bool(v)]
+        if t is np.ndarray:
+            return enc_array(v)
         if t is Idx:
             return ["PIndexObj", v.conv]
         if t is Flt:
@@ -355,6 +389,9 @@ def trait(d, pool):
         return PrefixList(["".join(chr(c) for c in s) for s in d[1]])
     if k == "DPrefixMap":
         return PrefixMap({"".join(chr(c) for c in s): pool.val(x) for s, x in d[1]})
+    if k == "DArray":
+        shp = None if d[2] is None else tuple(None if x is None else (x if isinstance(x, int) else tuple(x)) for x in d[2])
+        return Array(dtype=None if d[1] is None else DTYPES[d[1]], shape=shp, casting=CASTING[d[3]])
     if k == "DCompound":
         return Either(*[trait(x, pool) for x in d[1]])
     if k == "DUnion":
@@ -386,6 +423,16 @@ def adapt_classes(d, acc=None):
     return acc
 
 
+def array_nodes(d, acc=None):
+    acc = [] if acc is None else acc
+    if d[0] == "DArray":
+        acc.append((d[1], d[3]))
+    elif d[0] in ("DTuple", "DCompound", "DUnion"):
+        for y in d[1]:
+            array_nodes(y, acc)
+    return acc
+
+
 def mentions(d, names):
     if d[0] in names or (d[0] == "DCast" and d[1] in names):
         return True
@@ -399,7 +446,7 @@ def mentions(d, names):
 
 def subvalues(v):
     yield v
-    if isinstance(v, (tuple, list)):
+    if isinstance(v, (tuple, list)) and len(v) < 50:
         for x in v:
             yield from subvalues(x)
 
@@ -430,6 +477,7 @@ def oracles(pool, d, v):
     want_str = mentions(d, ("CTStr", "DString"))
     want_bytes = mentions(d, ("CTBytes",))
     adapt_cls = sorted(adapt_classes(d))
+    arr_nodes = array_nodes(d)
     rids = sorted(regex_ids(d))
     seen = []
     for x in subvalues(v):
@@ -440,17 +488,31 @@ def oracles(pool, d, v):
         if ex in seen:
             continue
         seen.append(ex)
-        if want_str and not isinstance(x, str):
+        if want_str and not isinstance(x, (str, np.ndarray)):
             try:
                 s = ADDR.sub("0x0", str(x))
                 orc.append([1, ex, ["PStr", [ord(c) for c in s]]])
             except Exception:
                 pass
-        if want_bytes and type(x) is not bytes:
+        if want_bytes and type(x) is not bytes and not isinstance(x, np.ndarray):
             try:
                 b = bytes(x)
                 if len(b) <= 64:
                     orc.append([2, ex, ["PBytes", list(b)]])
+            except Exception:
+                pass
+        for dt, casting in arr_nodes:
+            try:
+                if isinstance(x, (list, tuple)):
+                    r = np.asarray(x, DTYPES[dt]) if dt is not None else np.asarray(x)
+                    ent = [299 if dt is None else 300 + dt, ex, pool.enc(r)]
+                    if ent not in orc:
+                        orc.append(ent)
+                elif isinstance(x, np.ndarray) and dt is not None and x.dtype != DTYPES[dt]:
+                    r = x.astype(DTYPES[dt], casting=CASTING[casting])
+                    ent = [400 + 10 * dt + casting, ex, pool.enc(r)]
+                    if ent not in orc:
+                        orc.append(ent)
             except Exception:
                 pass
         for c in adapt_cls:
